@@ -3007,7 +3007,10 @@ func ruleLeadingIntRepresentatives(w *World, r *Report, rule string) {
 	}
 	var bads []string
 	for _, c := range []rep{{"", false, 0}, {"s", false, 0}, {"0s", true, 0}, {"00s", false, 0}, {"7s", true, 7}, {"12s", true, 12}, {"120m", true, 120}} {
-		e := &ddEngine{w: w, env: map[ssa.Value]aval{f.Params[0]: {k: kStr, s: c.in}}, maxLeafs: 8}
+		// small predicates of the package (an isDigit helper in the loop condition) are evaluated on their known arguments
+		e := &ddEngine{w: w, env: map[ssa.Value]aval{f.Params[0]: {k: kStr, s: c.in}}, maxLeafs: 8, inline: func(sc *ssa.Function) bool {
+			return pkgOf(sc) == w.Lib && len(sc.Blocks) <= 6 && len(callsIn(sc)) == 0
+		}}
 		e.run(f)
 		if e.err != nil || len(e.leaves) != 1 || e.leaves[0].ret == nil || len(e.leaves[0].results) != 3 {
 			msg := "more than one path"
